@@ -38,6 +38,14 @@ D = {  # id: (caught_by, first_run, strengthening)
  "C09_2": (["C16", "C09"], "missed by C09", "vlib/props/c09.py: adjacent 1-8-byte regions (legacy mode) with streaming math / hash rules over ranges crossing several regions"),
  "C02_1": (["C01", "C14 (broken tie)", "C02"], "missed by C02", "vlib/props/c02.py: generator family of shared-prefix alternatives of different lengths followed by a jump"),
  "C02_2": (["C02"], "caught", None),
+ "C03_1": (["C03"], "caught", None),
+ "C03_2": ([], "missed", "pending: regexes with NUL-interleaved literals under `ascii wide` (one literal equal to the widened form of another)"),
+ "C04_3": (["C06", "C04"], "missed by C04 (caught by C06)", "vlib/props/c04.py: every case is also scanned with the default parameters (first evaluation pass allowed) and the verdict must be the same; sibling-loop family"),
+ "C04_4": (["C04", "C06"], "caught", None),
+ "C05_3": (["C05"], "caught", None),
+ "C05_4": (["C05", "C06"], "missed", "vlib/ruleset.py: rule names are unique per namespace only (two namespaces declare rules of the same name)"),
+ "C15_3": (["C15"], "missed", "vlib/props/c15.py: rule sets decided in the first pass, several namespaces, a false global rule after a true one (every timeout point lies in the first pass)"),
+ "C15_4": (["C15"], "missed (no raw regex in the generator; the sticky hook masked the swallowed timeout)", "hook: timeout firing at one check only (cf35779); every timeout point is also run in that mode; regex strings without literal in the generated rule sets"),
  "C07_1": ([], "pending", None),
  "C07_2": ([], "pending", None),
 }
